@@ -201,6 +201,14 @@ let handle (req : Stdlib.String.t) : Stdlib.String.t =
            (* rest = cur :: what follows; cur is the last token of the expression *)
            Printf.sprintf "%s %d" (sexp_to_string (px_e e)) (max 0 (List.length rest - 1)))
            (parse_expression fok toks)
+     | "comments" ->
+         (* the decorated stream of Model/ParseComments.v: TYPE:index:nest:pel:cidx.plf.pel,... *)
+         String.concat ";" (List.map (fun d ->
+           Printf.sprintf "%s:%d:%s:%d:%s" (string_of_bytes (tname_b d.dtk.typ)) (int_of_n d.dtk.off)
+             (dec_of_z d.dnest) (int_of_n d.dpel)
+             (String.concat "," (List.map (fun c ->
+                Printf.sprintf "%d.%s.%d" (int_of_n c.ctok.off) (if c.cplf then "1" else "0") (int_of_n c.cpel)) d.dlead)))
+           (read_peek_stream toks))
      | _ -> "badmode")
   | _ -> "badreq"
 
